@@ -45,7 +45,11 @@ def pol(v) -> str:
 
 def one_year(year: int, probes: list, api_probes: int) -> dict:
     from whenever import SystemDateTime, patch_current_time
-    with patch_current_time(SystemDateTime(year, 6, 15, 12).instant(), keep_ticking=False):
+    # "now" within the year: mid-year, or the first / last half hour of the local year (where the UTC year differs from
+    # the local one in zones east / west of Greenwich)
+    when = [SystemDateTime(year, 6, 15, 12), SystemDateTime(year, 1, 1, 0, 30, disambiguate='compatible'),
+            SystemDateTime(year, 12, 31, 23, 30, disambiguate='compatible')][year % 3]
+    with patch_current_time(when.instant(), keep_ticking=False):
         assert SystemDateTime.now().year == year
         import eascheduler.helpers.dst_param as dp
         from eascheduler.builder.triggers import TriggerBuilder
@@ -85,19 +89,21 @@ def one_year(year: int, probes: list, api_probes: int) -> dict:
         for tod in probes[:api_probes]:
             t = tod_to_time(tod)
             for kind in ('time', 'earliest', 'latest'):
-                try:
-                    if kind == 'time':
-                        o = TriggerBuilder.time(t)
-                        tr = o._producer._time
-                    elif base is None:
-                        continue
-                    else:
-                        o = getattr(base, kind)(t)
-                        tr = getattr(o._producer, kind)
-                    res = ['ok', pol(tr._skipped), pol(tr._repeated), False]
-                except BaseException as e:  # noqa: BLE001
-                    res = exn_enum(e)
-                out['api'].append([tod, kind, res])
+                for variant, kw in (('nn', {}), ('fn', {'clock_forward': FWD_GIVEN}), ('nb', {'clock_backward': BWD_GIVEN}),
+                                    ('fb', {'clock_forward': FWD_GIVEN, 'clock_backward': BWD_GIVEN})):
+                    try:
+                        if kind == 'time':
+                            o = TriggerBuilder.time(t, **kw)
+                            tr = o._producer._time
+                        elif base is None:
+                            continue
+                        else:
+                            o = getattr(base, kind)(t, **kw)
+                            tr = getattr(o._producer, kind)
+                        res = ['ok', pol(tr._skipped), pol(tr._repeated), False]
+                    except BaseException as e:  # noqa: BLE001
+                        res = exn_enum(e)
+                    out['api'].append([tod, kind, res, variant])
         return out
 
 
